@@ -290,11 +290,15 @@ class AwaitFlow:
             return False
 
     def _add(self, fn, node, what, kind, seen):
-        key = (fn.key, getattr(node, "lineno", 0), kind, what)
+        key = (fn.key, getattr(node, "lineno", 0) if kind != "early-exit" else 0, kind, what)
         if key in seen:
             return
         seen.add(key)
-        self.findings.append(Finding(fn, node, what, norm_stmt(_stmt_of(fn, node)), kind))
+        stmt = norm_stmt(_stmt_of(fn, node))
+        if kind == "early-exit":
+            # identified by what it leaves, not by the spelling of the exit (return False / flag + break ...)
+            stmt = "early exit from the as_completed loop"
+        self.findings.append(Finding(fn, node, what, stmt, kind))
 
     def _uses(self, fn, p, e: Ev, ma, plain, guards, used, sync, seen):
         if not ma:
